@@ -79,7 +79,7 @@ def parseStruct (st : String) : Option SSet :=
         let fb ← parseInt fb
         let sz ← parseInt sz
         let ls ← if ls = "-" then some [] else (ls.splitOn ".").mapM parseInt
-        some (⟨name, fb, sz, ls⟩ : SFile)
+        some (⟨name, fb, sz, ls, []⟩ : SFile)
       | _ => none
     some ⟨b, fs⟩
 
@@ -88,6 +88,90 @@ def opR (st qs : String) : String :=
   | some ps, some ss => "A" ++ answers (read ss) ps
   | _, _ => "bad-op"
 
+def ans2 (s : MSet) (p : Int) : String × MSet :=
+  let (a, s1) := positionFor s p true
+  let (u, s2) := positionFor s1 p false
+  (ansStr a ++ "~" ++ ansStr u, s2)
+
+def parseInfo (x : String) : Option LineInfo :=
+  match x.splitOn ":" with
+  | [o, fn, l, c] => do
+    let o ← parseInt o
+    let l ← parseInt l
+    let c ← parseInt c
+    some ⟨o, fn, l, c⟩
+  | _ => none
+
+/-- FILE = name+base+size+cap+hex|~+infos ; `scan`: the scanner-driven form (size = content length, no cap) -/
+def addSpec (s : MSet) (spec : String) (scan : Bool) : Except String MSet :=
+  match spec.splitOn "+" with
+  | [name, b, sz, cp, content, infos] =>
+    match parseInt b, parseInt sz, parseInt cp with
+    | some b, some sz, some cp => do
+      let c? := if content = "~" then some none else (parseHex content).map some
+      match c? with
+      | none => throw "bad-op"
+      | some c =>
+        let s1 ← if scan then addFile s name b ((c.getD []).length) 0 else addFile s name b sz cp
+        let k := s1.files.length - 1
+        let s2 ← match c with
+          | some bytes => if scan ∧ bytes.isEmpty then pure s1 else setContent s1 k bytes
+          | none => pure s1
+        if infos = "-" then return s2
+        let mut cur := s2
+        for x in infos.splitOn "/" do
+          match parseInfo x with
+          | some li => cur ← addLineInfo cur k li
+          | none => throw "bad-op"
+        return cur
+    | _, _, _ => throw "bad-op"
+  | _ => throw "bad-op"
+
+def hStep (st : MSet × List String) (step : String) : Except String (MSet × List String) := do
+  let (s, outs) := st
+  let (kind, arg) := match step.splitOn "," with
+    | [] => ("", "")
+    | k :: rest => (k, ",".intercalate rest)
+  if kind = "a" ∨ kind = "s" then
+    let s' ← addSpec s arg (kind = "s")
+    return (s', outs)
+  else if kind = "i" then
+    match arg.splitOn "," with
+    | [k, info] =>
+      match parseNat k, parseInfo info with
+      | some k, some li =>
+        let s' ← addLineInfo s k li
+        return (s', outs)
+      | _, _ => throw "bad-op"
+    | _ => throw "bad-op"
+  else if kind = "q" then
+    match (arg.splitOn ".").mapM parseInt with
+    | none => throw "bad-op"
+    | some ps =>
+      let mut cur := s
+      let mut parts : List String := []
+      for p in ps do
+        let (a, s') := ans2 cur p
+        cur := s'
+        parts := a :: parts
+      return (cur, ",".intercalate parts.reverse :: outs)
+  else if kind = "r" then
+    let mut other := newFileSet
+    if arg ≠ "-" then
+      for sp in arg.splitOn "|" do
+        other ← addSpec other sp false
+    return (readInto s (write other), outs)
+  else if kind = "j" then
+    return (readInto s (write s), outs)
+  else throw "bad-op"
+
+def opH (hist : String) : String :=
+  let r := (hist.splitOn ";").foldlM hStep (newFileSet, ([] : List String))
+  match r with
+  | .error "bad-op" => "bad-op"
+  | .error e => "PANIC " ++ e
+  | .ok (_, outs) => if outs.isEmpty then "-" else "|".intercalate outs.reverse
+
 def handle (line : String) : String :=
   match words line with
   | ["F", h, offs] => match parseHex h with
@@ -95,6 +179,7 @@ def handle (line : String) : String :=
     | none => "bad-op"
   | ["S", spec, qs] => opS spec qs
   | ["R", _, st, qs] => opR st qs
+  | ["H", hist] => opH hist
   | _ => "bad-op"
 
 def main : IO Unit := lineLoop handle
